@@ -2,6 +2,8 @@
 #ifdef VERIF_MODEL
 #include "pgm/sdsl.hpp"      // sdsl keeps the real std containers (it is not on any encoded path)
 #include "verif_std.hpp"
+// the container's own data vector is reserved to exactly n by the constructor: keep *end() out of bounds in the model too
+namespace std { template<> struct verif_exact_reserve<CT> { static constexpr bool value = true; }; }
 #endif
 #include "pgm/pgm_index.hpp"
 #include "pgm/pgm_index_variants.hpp"
